@@ -109,10 +109,7 @@ def run(chk):
     chk.assume("that target points lie on the wall and on their flux surface is observed on the corpus (refinement tolerances), not proved")
     chk.coq()
     # a non-orthogonal grid whose outer target is so oblique to the flux surfaces (and so finely spaced) that contours must be EXTENDED to reach the wall
-    steep = corpus.tok("lsn_nonorth_steep", "lsn", dict(orthogonal=False, number_of_processors=1, psinorm_core=0.8, psinorm_sol=1.2, psinorm_pf=0.9, ny_inner_divertor=4, ny_sol=12,
-                                                       ny_outer_divertor=8, nx_core=2, nx_sol=2, psi_spacing_separatrix_multiplier=0.5, target_all_poloidal_spacing_length=0.3,
-                                                       target_outer_lower_poloidal_spacing_length=0.03, xpoint_poloidal_spacing_length=0.05, finecontour_Nfine=200, y_boundary_guards=1),
-                       wall="steep", must_build=True)
+    steep = corpus.steep_cfg()
     grids = [g for g in corpus.get(tier=chk.tier, extra_cfgs=[steep]) if g.ok and g.cfg["kind"] == "tokamak"]
     rng = random.Random(chk.seed)
     n = 0
